@@ -49,6 +49,17 @@ CHECKS = {
         "a node with 27 and with 40 children: string, openness flags, paths/get_subtree/find_node/trie/sub-tries, structural equality vs hash, locality of replace_path.",
    note="Trusted: reference traversal in the harness. [decoder] for (2). Outside: larger trees, longer sequences, k_paths caches. Known finding: trie alphabet (children >= 28).",
    design="§3 C16"),
+ "C03": dict(level="other", technique="CrossHair (z3): solver-driven exhaustive enumeration of all closed trees of a bounded family; the real evaluate() vs. a reference interpreter of the specification (Z3 decides instantiated SMT atoms)",
+   text=BOUNDED + "Every closed derivation tree of the assignment grammar with <= 2 (quick, 240 trees) / <= 3 (thorough, 3615 trees) statements x a family of ~70 constraints "
+        "(tree quantifiers with/without match expressions and optionals, all structural predicates incl. ancestor/descendant pairs, count, numeric quantifiers = second evaluation strategy, "
+        "SMT atoms, connectives, simplified syntax): evaluate() must equal the reference semantics transcribed from islaspec.rst, never UNKNOWN, never raise.",
+   note="Trusted: checks/refsem.py; to_tree_prefix for mexprTrees; numeral candidates for numeric quantifiers. [decoder]. Outside: other grammars/trees/formulas; wide nodes (C16 trie finding).",
+   design="§3 C03"),
+ "C06": dict(level="other", technique="CrossHair (z3): solver-driven exhaustive enumeration of open trees; real evaluate() on the open tree vs. reference semantics on every completion; symbolic Kleene monotonicity of ThreeValuedTruth",
+   text=BOUNDED + "Every open tree of the bounded family and every completion (same node identities): a TRUE/FALSE verdict of the real evaluate() on the open tree must equal the "
+        "reference verdict on the completion, for each of ~70 constraints; plus monotonicity of all/any/not/and/or under refinement of UNKNOWN on symbolic truth values.",
+   note="Trusted: checks/refsem.py. [decoder]. Known findings: numeric-quantifier strategy on open trees; unbound nested nonterminals of match expressions.",
+   design="§3 C06"),
 }
 NOT_APPLICABLE = {
  "C21": "needs end-to-end solve() on the shipped formalizations plus external validators (docutils, XML parser): the solver loop is a heap algorithm around Z3 calls that no engine here can encode, and the validators are not solver objects",
